@@ -350,7 +350,7 @@ def plan(tier, seed):
     for i in range(8):
         specs.append(dict(name="random-%d" % i, kind="random", n=2500 if tier == "quick" else 40000))
     for i in range(6):
-        specs.append(dict(name="announcements-%d" % i, kind="announce", n=1200 if tier == "quick" else 15000))
+        specs.append(dict(name="announcements-%d" % i, kind="announce", n=1500 if tier == "quick" else 40000))
     return specs
 
 
